@@ -70,6 +70,15 @@ fn run(ctx: &RunCtx) -> Report {
     rng.shuffle(&mut byz);
     byz.truncate(n_byz);
     let honest: Vec<usize> = (0..n_peers).filter(|i| !byz.contains(i)).collect();
+    // 1 run in 4: the Byzantine peers also lie about the reader's address - they all report the
+    // address of one of them (what a node believes about its own address is remotely influenced)
+    if rng.chance(1, 4) {
+        let liar_addr = addrs[byz[0]];
+        for b in &byz {
+            rawnet.with_peer(*b, |p| p.ip_vote = Some(liar_addr));
+        }
+        report.probe("byzantine_address_votes", 1);
+    }
 
     // objects
     let key = krpc::signing_key(rng.bytes(32).try_into().unwrap());
